@@ -115,6 +115,15 @@ def window():
             if changed:
                 ops.append(c("c2", ("SET", K, "99")))
             ops += [c("c1", ("WATCH",) + keys), c("c1", ("MULTI",)), c("c1", ("SET", K, "11")), c("c1", ("EXEC",)), c("c1", ("GET", K))]
+            # the same with the change being the key's removal - by DEL, by a flush (which touches the whole watch
+            # registry), by expiry at once - before the second WATCH
+            if changed:
+                for how in (("DEL", "K"), ("FLUSHALL",), ("FLUSHDB",), ("EXPIRE", "K", "0"), ("RENAME", "K", "elsewhere")):
+                    i += 1
+                    K = f"r{i}"
+                    keys = tuple(K if a == "K" else f"o{i}" for a in rewatch)
+                    ops += [c("c2", ("SET", K, "0")), c("c1", ("WATCH", K)), c("c2", tuple(K if a == "K" else a for a in how)),
+                            c("c1", ("WATCH",) + keys), c("c1", ("MULTI",)), c("c1", ("SET", K, "11")), c("c1", ("EXEC",)), c("c1", ("GET", K))]
     ops.append("dump")
     return ops
 
